@@ -139,7 +139,7 @@ func (e *Engine) VerifyFunction(fn *ssa.Function, fc *FuncContract) *FuncReport 
 		rep.ParamSyms[p.Name()] = v.Op
 		rep.ParamOrder = append(rep.ParamOrder, p.Name())
 	}
-	for _, fv := range fn.FreeVars {
+	for i, fv := range fn.FreeVars {
 		// closures verified standalone: free variables are arbitrary pointers to cells
 		v := Var("fv$"+fv.Name(), x.sortOf(fv.Type()))
 		x.assumeTyped(s, v, fv.Type())
@@ -147,6 +147,16 @@ func (e *Engine) VerifyFunction(fn *ssa.Function, fc *FuncContract) *FuncReport 
 		fr.vals[fv] = tv(v, fv.Type())
 		if p, ok := fv.Type().(*types.Pointer); ok {
 			fr.vars["&"+fv.Name()] = Val{LV: &LValue{Kind: lvCell, Ref: v, Typ: p.Elem()}, GoT: p.Elem()}
+		}
+		if !capturedByRef(fn, i) {
+			// captured by value: the contract may name it like a parameter
+			x.params[fv.Name()] = tv(v, fv.Type())
+		} else if p, ok := fv.Type().(*types.Pointer); ok {
+			// captured by reference: the name denotes the variable's value at entry
+			if cur, err := x.load(s, &LValue{Kind: lvCell, Ref: v, Typ: p.Elem()}); err == nil {
+				x.assumeTyped(s, cur, p.Elem())
+				x.params[fv.Name()] = tv(cur, p.Elem())
+			}
 		}
 	}
 	x.globalFacts(s, fn.Pkg)
@@ -649,3 +659,21 @@ func sortResults(rs []*OblResult) {
 }
 
 var _ = time.Now
+
+// capturedByRef reports whether free variable i of closure fn is bound to the address of a local
+// of the enclosing function (an Alloc) rather than to a value.
+func capturedByRef(fn *ssa.Function, i int) bool {
+	parent := fn.Parent()
+	if parent == nil {
+		return true
+	}
+	for _, b := range parent.Blocks {
+		for _, in := range b.Instrs {
+			if mc, ok := in.(*ssa.MakeClosure); ok && mc.Fn == ssa.Value(fn) && i < len(mc.Bindings) {
+				_, isAlloc := mc.Bindings[i].(*ssa.Alloc)
+				return isAlloc
+			}
+		}
+	}
+	return true
+}
